@@ -70,3 +70,20 @@ contract("C11.value_as_default_unit", file=T, func="HedTag.value_as_default_unit
              "C11.convert.no_default_unit_is_absent": "implies(' ' not in self.extension and self.default_unit is None, result is None)",
              "C11.convert.total": "True",
          })
+
+# C11 "converted exactly as the schema defines them": the factor of <prefix><unit> is (unit factor) x (prefix factor), where a factor
+# written with '^' (10^6, 10^-3) means the power of ten - for the unit AND for the prefix; an unparsable factor counts as 1
+class_model("UnitModifierM", {"attributes": "Map[Str,Str]"})
+FTXT = "(lambda e: replace_all(e.attributes['conversionFactor'] if 'conversionFactor' in e.attributes else '1.0', '^', 'e'))"
+contract("C11.conversion_factor_of_prefixed_unit", file=H, func="UnitEntry._get_conversion_factor",
+         params={"self": "UnitEntry2", "modifier_entry": "Opt[UnitModifierM]"}, returns="Real", enc="native", self_class="UnitEntry2",
+         lets={"b": FTXT + "(self)"},
+         ensures={
+             "C11.factor.unit_alone": "implies(modifier_entry is None and float_parses(b), result == float_of(b))",
+             "C11.factor.unit_times_prefix_power_of_ten": "implies(modifier_entry is not None and float_parses(b) and float_parses(" + FTXT + "(modifier_entry)),"
+                                                          " result == float_of(b) * float_of(" + FTXT + "(modifier_entry)))",
+             "C11.factor.unparsable_unit_factor_is_one": "implies(not float_parses(b), result == 1.0)",
+             "C11.factor.unparsable_prefix_factor_is_one": "implies(modifier_entry is not None and float_parses(b) and not float_parses(" + FTXT + "(modifier_entry)),"
+                                                           " result == float_of(b))",
+         },
+         assume=["float(text) is the partial uninterpreted function float_of on texts with float_parses (NaN not modelled; reals)"])
